@@ -9,10 +9,12 @@ def configs(tier, seed):
     if tier == "quick":
         sizes = [(2, 2), (3, 3), (4, 3)]
     else:
-        sizes = [(2, 2), (3, 3), (4, 4), (5, 3)]
+        sizes = [(2, 2), (3, 3), (4, 4), (5, 2)]
     for n, K in sizes:
         for part in sup.partitions(n, 2, K):
             for branch in ("pre", "fn"):
+                if n >= 5 and branch == "fn":
+                    continue
                 w = 7 if n <= 3 else (31 if n == 4 else 1501)
                 # (a) right after the MST pass, any tie pattern
                 cfgs.append(dict(n=n, K=K, part=list(part), branch=branch, only_protos=True, weight=10 ** n, wstride=w))
